@@ -21,6 +21,14 @@ func shape(f *File, s ast.Stmt) string {
 	head += f.src(ifs.Cond) + " → "
 	switch last := ifs.Body.List[len(ifs.Body.List)-1].(type) {
 	case *ast.ReturnStmt:
+		if len(last.Results) == 1 {
+			// a tail call that is not the construction of an error: keep it (`return expandPackage(ctx, a, pkg)`)
+			if c, ok := last.Results[0].(*ast.CallExpr); ok {
+				if fn := f.src(c.Fun); fn != "fmt.Errorf" && fn != "errors.New" {
+					return head + "return " + f.src(c)
+				}
+			}
+		}
 		if n := len(last.Results); n > 0 && f.src(last.Results[n-1]) != "nil" {
 			return head + "return-error"
 		}
@@ -139,6 +147,76 @@ func genAuthentic() {
 		problem("tarfs/fs.go: regular-file case of memFS.WriteHeader not found")
 	}
 	l.defStrList("stmts_writeHeaderReg", wh)
+
+	// 5. round 2: the process-wide memo of expanded packages (`apkCache.get`, statement by statement) and the
+	// fields of the entry stored inside the once
+	stmts(f, "apkCache.get", "stmts_apkCacheGet")
+	var stored []string
+	if fd := f.fn("apkCache.get"); fd != nil {
+		ast.Inspect(fd.Body, func(n ast.Node) bool {
+			if cl, ok := n.(*ast.CompositeLit); ok && f.src(cl.Type) == "apkResult" {
+				for _, e := range cl.Elts {
+					stored = append(stored, f.src(e))
+				}
+			}
+			return true
+		})
+	}
+	l.defStrList("apkResultStored", stored)
+	stmts(f, "APK.expandPackage", "stmts_expandPackageMethod")
+
+	// 6. round 2: the loop of lazilyInstallAPKFiles (every entry of the tar index is looked at, in order)
+	inst := load("pkg/apk/apk/install.go")
+	var lazy []string
+	if fd := inst.fn("APK.lazilyInstallAPKFiles"); fd != nil {
+		for _, s := range fd.Body.List {
+			if rs, ok := s.(*ast.RangeStmt); ok {
+				lazy = append(lazy, "for "+inst.src(rs.Key)+", "+inst.src(rs.Value)+" := range "+inst.src(rs.X))
+				for _, b := range rs.Body.List {
+					lazy = append(lazy, shape(inst, b))
+				}
+			}
+		}
+	}
+	if len(lazy) == 0 {
+		problem("install.go: loop of lazilyInstallAPKFiles not found")
+	}
+	l.defStrList("stmts_lazyInstallLoop", lazy)
+
+	// 7. round 2: the lazy tar FS: index assignment in New, the link-following switch of open, the read by name in memFS
+	itf := load("pkg/apk/internal/tarfs/tarfs.go")
+	var idxStmts []string
+	if fd := itf.fn("New"); fd != nil {
+		ast.Inspect(fd.Body, func(n ast.Node) bool {
+			if as, ok := n.(*ast.AssignStmt); ok && strings.HasPrefix(itf.src(as), "fsys.index[") {
+				idxStmts = append(idxStmts, itf.src(as))
+			}
+			return true
+		})
+	}
+	if len(idxStmts) == 0 {
+		problem("tarfs.go: index assignment in New not found")
+	}
+	l.defStrList("tarfsIndexAssign", idxStmts)
+	stmts(itf, "FS.open", "stmts_tarfsOpen")
+	if v, ok := itf.constTable()["maxHops"]; ok {
+		l.defNat("tarfsMaxHops", v)
+	} else {
+		problem("tarfs.go: const maxHops not found")
+	}
+	var byName []string
+	if fd := tf.fn("memFS.openFile"); fd != nil {
+		ast.Inspect(fd.Body, func(n ast.Node) bool {
+			if c, ok := n.(*ast.CallExpr); ok && strings.HasSuffix(tf.src(c.Fun), ".tfs.Open") {
+				byName = append(byName, tf.src(c))
+			}
+			return true
+		})
+	}
+	if len(byName) == 0 {
+		problem("tarfs/fs.go: read through te.tfs.Open in memFS.openFile not found")
+	}
+	l.defStrList("memfsReadsTar", byName)
 	l.write()
 
 	for _, fn := range []string{"expandPackage", "APK.expandPackage", "APK.cachedPackage", "APK.cachePackage", "APK.verifyExpanded", "APK.FetchPackage",
@@ -152,6 +230,11 @@ func genAuthentic() {
 	hashFn("pkg/apk/apk/installed.go", "APK.controlValue")
 	hashFn("pkg/apk/apk/install.go", "APK.lazilyInstallAPKFiles")
 	hashFn(tfs, "memFS.WriteHeader")
+	hashFn(tfs, "memFS.writeHeader")
+	hashFn(tfs, "memFS.link")
+	hashFn(tfs, "memFS.openFile")
+	hashFn("pkg/apk/internal/tarfs/tarfs.go", "New")
+	hashFn("pkg/apk/internal/tarfs/tarfs.go", "FS.open")
 	hashFn(tfs, "checksumFromHeader")
 	hashFn("pkg/paths/paths.go", "AdvertiseCachedFile")
 	hashFn("pkg/build/installable_from_lock.go", "installablePackagesForArch")
